@@ -226,23 +226,30 @@ def main(ctx: Ctx) -> int:
     from naunet.reactions.reaction import Reaction
     from naunet.reactiontype import ReactionType as RT
     mkr = lambda r_, p_, ty_: Reaction(list(r_), list(p_), alpha=1.0, reaction_type=ty_)
-    for model in ("hh93", "hh93i"):
-        for pops in ((0, 1), (0, 2), (0, 1, 2)):
+    for model in ("hh93", "hh93i", "rr07", "rr07x"):
+        for pops in ((0, 1), (0, 2), (0, 1, 2)) if model.startswith("hh93") else ((0,),):
             Species.reset()
             reacs = []
             for g_ in pops:
                 n0, nm = (f"GRAIN{g_}", f"GRAIN{g_}-") if g_ else ("GRAIN0", "GRAIN-")
                 ice = f"#{g_}CO" if g_ else "#CO"
-                reacs += [mkr([n0, "e-"], [nm], RT.GRAIN_ECAPTURE), mkr(["CO"], [ice], RT.GRAIN_FREEZE), mkr([ice], ["CO"], RT.GRAIN_DESORB_THERMAL)]
+                reacs += [mkr([n0, "e-"], [nm], RT.GRAIN_ECAPTURE if model.startswith("hh93") else RT.GAS_TWOBODY), mkr(["CO"], [ice], RT.GRAIN_FREEZE),
+                          mkr([ice], ["CO"], RT.GRAIN_DESORB_THERMAL)]
             obs = {"refused": False, "valid": True, "tree": ["none"], "expr": "", "err": "", "eb_ok": True}
             rows = []
             try:
                 net4 = Network(reacs, grain_model=model)
                 for g4 in net4.grains:
                     key = next((k4 for k4 in g4.deriveds if k4.startswith("gdens")), None)
-                    val = g4.deriveds.get(key, "") if key else ""
+                    val = str(g4.deriveds.get(key, "")) if key else ""
                     found = re.findall(r"IDX_(\w+)", val)
                     own = sorted(sp.alias for sp in net4.species if sp.is_grain and (sp.grain_group or 0) == (g4.group or 0))
+                    if model.startswith("rr07"):
+                        # the Roberts et al. models take the grain density as a run-time PARAMETER, with or without grain species in the network
+                        is_param = any(k4.startswith("gdens") for k4 in g4.params) and key is None
+                        rows.append({"group": g4.group or 0, "summands": [] if is_param else ["<not a parameter>"], "own": [], "each_once": True,
+                                     "text": f"parameter: {is_param}; derived: {val!r}"})
+                        continue
                     rows.append({"group": g4.group or 0, "summands": sorted(set(found)), "own": own, "each_once": len(found) == len(set(found)), "text": val})
             except (NotImplementedError, ValueError, RuntimeError, AttributeError, KeyError) as e:
                 obs["refused"], obs["err"] = True, f"{type(e).__name__}: {str(e)[:80]}"
